@@ -308,12 +308,14 @@ int parse_instruction_8008(AsmContext *asm_context, char *instr)
           if (operand_count != 1) { continue; }
           if (operands[0].type == OPERAND_NUMBER)
           {
-            if (operands[0].value >= 0xc0 ||
+            if (operands[0].value < 0 ||
+                operands[0].value >= 0xc0 ||
                (operands[0].value & 0x7) != 0)
             {
               print_error(
                 asm_context,
                 "Subroutine address needs to be a multiple of 8.");
+              return -1;
             }
 
             opcode = table_8008[n].opcode | operands[0].value;
